@@ -136,8 +136,8 @@ def coq_outcomes(row, F):
 def run(ctx):
     rng = ctx.rng
     failures, tie_breaks = [], []
-    LMAX = 200
-    njobs = ctx.scale(36, 700)
+    LMAX = ctx.scale(160, 260)
+    njobs = ctx.scale(24, 700)
     per_job = 8
     jobs, meta = [], {}
     for j in range(njobs):
@@ -148,7 +148,7 @@ def run(ctx):
             gg = GoalGen(rng, p)
             feats = set()
             if k == 0 and j % 6 == 0:
-                n = rng.choice([20, 30, 40])     # mode probe: two solutions of about n inferences each
+                n = rng.choice([10, 14, 18])     # mode probe: two solutions of about n inferences each
                 body = "( %scdd(%d), V1 = 1 ; %scdd(%d), V1 = 2 )" % (p, n, p, n)
                 gg.nv = 1
                 feats.add("mode-probe")
@@ -288,10 +288,20 @@ def run(ctx):
             if n >= 2: dist["multi_solution"] += 1
             sols = "[%s]" % "; ".join("(%d, %d)" % (i, c) for i, c in enumerate(costs))
             # segments of equal rows
+            # limits above t_end + 2 are not re-evaluated in Coq: there the model gives plain = F by theorem unlimited_equals_call
+            # (total cost of the fitted profile = t_end); Python only confirms that those rows equal F
             segs, lo = [], 0
+            late_bad = None
             for L in range(1, len(rows1) + 1):
                 if L == len(rows1) or rows1[L] != rows1[lo]:
-                    segs.append("(%d, %d, %s)" % (lo, L - lo, coq_outcomes(rows1[lo], F))); lo = L
+                    if lo <= t_end + 2:
+                        segs.append("(%d, %d, %s)" % (lo, min(L, t_end + 3) - lo, coq_outcomes(rows1[lo], F)))
+                    if L > t_end + 3 and rows1[lo] != F and late_bad is None: late_bad = lo
+                    lo = L
+            if late_bad is not None:
+                fail("cwil:table-not-threshold-structured", "a limit above the least limit that gives all answers gives different answers (not monotone)",
+                     inp + "  (L = %d)" % late_bad, repr(rows1[late_bad])[:600], repr(F)[:600])
+                continue
             segs.append("(%d, 1, %s)" % (BIG, coq_outcomes(F, F)))
             exprs.append("check_table true %s %s [%s]" % (sols, ending, "; ".join(segs)))
             info.append((jid, gi, "table", (sols, ending)))
@@ -334,7 +344,7 @@ def run(ctx):
                     break
 
     t0 = time.time()
-    bad, errs = core.coq_eval_bools(ctx.prop, IMPORTS, exprs, chunk=ctx.scale(40, 80), tag="cases")
+    bad, errs = core.coq_eval_bools(ctx.prop, IMPORTS, exprs, chunk=ctx.scale(60, 80), tag="cases")
     core.log("C40: coq evaluation of %d expressions %.1fs" % (len(exprs), time.time() - t0))
     for k, e in errs:
         tie_breaks.append({"kind": "coq-eval", "what": "model evaluation shard failed", "detail": str(e)[-1500:]})
@@ -349,7 +359,7 @@ def run(ctx):
             if shown < 4:
                 shown += 1
                 if what == "table":
-                    spec = core.coq_eval_show(ctx.prop, IMPORTS, "map (fun L => (L, run true L %s %s)) [0;1;2;3;5;8;13;21;34;55;89;144;200]" % x)
+                    spec = core.coq_eval_show(ctx.prop, IMPORTS, "map (fun L => (L, run true L %s %s)) [0;1;2;3;5;8;13;21;34;55;89;144]" % x)
                 else:
                     spec = core.coq_eval_show(ctx.prop, IMPORTS, "run true %d %s %s" % x)
                 spec = spec[:900]
@@ -372,8 +382,8 @@ def run(ctx):
     return {"evaluations": evaluations, "distinct_nontrivial": len(nontrivial),
             "rule": ("goals built from member/between/count-downs (with and without a remaining choice point)/length/append/unification combined by "
                      "conjunction, disjunction, failure, throw (user balls and type/evaluation errors), if-then-else, once, \\+, findall, defined as predicates; plus "
-                     "nested call_with_inference_limit wrappers of them with a generous or a tight inner limit; each goal is run at every limit 0..200 twice, at 10^6 "
+                     "nested call_with_inference_limit wrappers of them with a generous or a tight inner limit; each goal is run at every limit 0..160 (260 in the thorough tier) twice, at 10^6 "
                      "and by call/1; evaluations = (goal, limit) runs compared + nested comparisons; non-trivial = distinct goals whose complete table is reproduced "
                      "by the fitted model in Coq + nested goals whose inner answers equal the model of the inner goal at the inner limit; goals needing more than "
-                     "200 inferences are dropped (counted)"),
+                     "the sweep bound are dropped (counted)"),
             "samples": samples, "distribution": dist, "failures": failures, "tie_breaks": tie_breaks}
